@@ -11,6 +11,8 @@ import ScyllaVerif.Proofs.Row
 import ScyllaVerif.Proofs.CarrierFits
 import ScyllaVerif.Proofs.CarrierStatic
 import ScyllaVerif.Proofs.CarrierTc
+import ScyllaVerif.Proofs.CarrierDims
+import ScyllaVerif.Proofs.CarrierDocs
 import ScyllaVerif.Generated.DocMatrix
 
 namespace ScyllaVerif.Props.C17
@@ -383,6 +385,20 @@ theorem mismatched_pair_rejected (c : Carrier) (t : CqlTy) (x : RVal) (ws : Bool
     ∃ e, (ser t x ws buf).2 = some e :=
   ser_rejects t x ws buf (reject_full c t x ha ht hf)
 
+/-- **… with a type-check error**: when moreover the sequences have the dimensions of the vectors they meet and
+no size error occurs, the refusal is a `BuiltinTypeCheckError` kind (possibly wrapped by the collections it
+was found in) — never a serialization-error kind. -/
+theorem mismatched_pair_type_error (c : Carrier) (t : CqlTy) (x : RVal) (ws : Bool) (buf : Bytes)
+    (ha : accepts c t = false) (ht : hasType c x = true) (hf : full x = true) (hd : dimsOk t x = true)
+    (hs : ∀ e', (ser t x ws buf).2 = some e' → e'.kind.isSize = false) :
+    ∃ e, (ser t x ws buf).2 = some e ∧ e.kind.isTypeCheck = true := by
+  obtain ⟨e, he⟩ := mismatched_pair_rejected c t x ws buf ha ht hf
+  refine ⟨e, he, ?_⟩
+  rcases error_classes e.kind with h | h | h
+  · rw [hs e he] at h; cases h
+  · exact h
+  · exact absurd h (ScyllaVerif.Proofs.CarrierDims.ser_reld t x ws buf hd e he)
+
 /-- … and nothing of the mismatched value is bound: `add_value` fails and leaves the values as they were. -/
 theorem mismatched_pair_never_bound (c : Carrier) (t : CqlTy) (x : RVal) (sv : SV)
     (ha : accepts c t = false) (ht : hasType c x = true) (hf : full x = true) :
@@ -443,26 +459,47 @@ example :
     tcheck (.vec (.hashMap (.scalar .i32) (.scalar .str))) (.list (.map (.native .int) (.native .int)))
       = some ⟨[.elem, .val], .mismatchedType⟩ := by decide +kernel
 
-/-! ## Part 4 — the documentation's compatibility matrix (TESTS over finite universes, not theorems) -/
+/-! ## Part 4 — the documentation's compatibility matrix
+
+`Generated/DocMatrix.lean` is a hand transcription of the documentation, written independently of `accepts` /
+`deserAccepts`.  The two theorems below reduce "the model's relations are the documented ones, for every
+documented carrier type at any nesting depth and every column type" to the agreement of the 19 × 20 LEAF tables,
+which is then checked exhaustively (a finite table: `decide`). -/
 
 open ScyllaVerif.DocMatrix
+open ScyllaVerif.Proofs.CarrierDocs (deser_eq_docs ser_eq_docs)
 
-/-- TEST `accepts_matches_docs`, leaves: for all 19 leaf carriers × 20 natives both relations are exactly the
-documented table (an `exact_type_check!` listing an extra native fails here). -/
-example : allScalars.all (fun s => allNatives.all (fun n =>
-    accepts (.scalar s) (.native n) == (docNatives s).contains n &&
-    deserAccepts (.scalar s) (.native n) == (docNatives s).contains n)) = true := by decide +kernel
+/-- The leaf tables of the model are the documentation's table (all 19 leaf carriers; an `exact_type_check!`
+transcribed with an extra or a missing native fails here). -/
+theorem leaf_tables_are_documented :
+    (∀ s, Scalar.deNatives s = docNatives s) ∧ (∀ s, Scalar.serNatives s = docNatives s) := by
+  constructor <;> intro s <;> cases s <;> rfl
 
-/-- TEST, one nesting level over ALL leaves and natives (167 carriers × 200 column types): `type_check` accepts exactly the
-documented pairs; `serialize` accepts every documented pair, and exactly the documented pairs plus the three
-deviations the code documents (`docLooseSer`). -/
-example : carriers1.all (fun c => types1.all (fun t =>
-    deserAccepts c t == docAccepts c t && accepts c t == docLooseSer c t && (!docAccepts c t || accepts c t)))
-    = true := by decide +kernel
+/-- **`type_check` accepts exactly the documented pairs**: for every carrier type the documentation speaks
+about (leaves, `Option`, `MaybeEmpty`, `Vec`, sets, maps, n-ary tuples, `CqlValue`, nested to any depth) and
+EVERY column type. -/
+theorem typecheck_matches_docs (c : Carrier) (t : CqlTy) (h : documentedDe c = true) :
+    tcheck c t = none ↔ docAccepts c t = true := by
+  rw [deser_typecheck_iff, deser_eq_docs leaf_tables_are_documented.1 c t h]
 
-/-- TEST, two nesting levels (64 carriers of depth 2 × 200 column types of depth ≤ 2). -/
-example : carriers2.all (fun c => types2.all (fun t =>
-    deserAccepts c t == docAccepts c t && accepts c t == docLooseSer c t && (!docAccepts c t || accepts c t)))
-    = true := by decide +kernel
+/-- **`accepts_matches_docs`**: on write, the accepted pairs are exactly the documented ones plus the deviations
+the code documents in comments (`docLooseSer`), for every documented carrier type and every column type. -/
+theorem accepts_matches_docs (c : Carrier) (t : CqlTy) (h : documentedSer c = true) :
+    accepts c t = docLooseSer c t := ser_eq_docs leaf_tables_are_documented.2 c t h
+
+/-- TEST (finite universe, `decide`): every strictly documented pair is accepted on write (no `MaybeEmpty`
+carrier in this universe: it additionally needs an emptiable column); `CqlValue`, `Unset`, `MaybeUnset`
+carriers and UDT columns included (45 carriers × 47 column types of nesting ≤ 2). -/
+example : carriersT.all (fun c => typesT.all (fun t =>
+    (!docAccepts c t || accepts c t) && (!documentedDe c || deserAccepts c t == docAccepts c t) &&
+    accepts c t == docLooseSer c t)) = true := by decide +kernel
+
+/-- Non-vacuity: a documented carrier three levels deep, with a `CqlValue` inside, against a matching and a
+mismatching column type. -/
+example :
+    let c : Carrier := .hashMap (.scalar .str) (.vec (.tuple [.scalar .i32, .dyn, .opt (.scalar .uuid)]))
+    documentedDe c = true ∧
+    docAccepts c (.map (.native .ascii) (.set (.tuple [.native .int, .udt "ks" "t" [], .native .uuid]))) = true ∧
+    docAccepts c (.map (.native .ascii) (.set (.tuple [.native .int, .udt "ks" "t" []]))) = false := by decide
 
 end ScyllaVerif.Props.C17
